@@ -374,11 +374,11 @@ Proof.
   - unfold body. cbn [c_sub c_ph c_inw c_calls c_late]. rewrite Dc. exact Y1.
 Qed.
 
-Lemma Inv_step sid p es c e : Inv sid p es c -> Inv sid p (es ++ [e]) (cstep sid c e).
+Lemma Inv_step sid p es c e h : Inv sid p es c -> Inv sid p (es ++ [e]) (cstep sid h c e).
 Proof.
   intros Hc. pose proof Hc as [H1 H2 H3 H5 H4].
   pose proof (first_exit_snoc p es e) as F.
-  destruct e as [q|q st| |s l|s l re|]; cbn [cstep].
+  destruct e as [q|q st| |s l|s l re| | |]; cbn [cstep].
   - apply Inv_mono; [exact Hc| |reflexivity]. rewrite F. destruct (first_exit p es); reflexivity.
   - rewrite H1. destruct (q =? p) eqn:E.
     + destruct c as [s ph inw calls late]. cbn [c_sub c_ph c_inw c_calls c_late] in *.
@@ -391,6 +391,7 @@ Proof.
     + apply Inv_mono; [exact Hc| |reflexivity]. rewrite F. destruct (first_exit p es); reflexivity.
   - assert (F' : first_exit p (es ++ [ESigchld]) = first_exit p es) by (rewrite F; destruct (first_exit p es); reflexivity).
     destruct c as [s ph inw calls late]. cbn [c_sub c_ph c_inw c_calls c_late] in *.
+    destruct h; [|apply Inv_mono; [assumption|assumption|reflexivity]]. cbn [andb].
     destruct inw; [|apply Inv_mono; [assumption|assumption|reflexivity]].
     unfold ctry. cbn [c_sub c_ph c_inw c_calls c_late].
     destruct ph as [|st'|st'|st']; try (apply Inv_mono; [assumption|assumption|reflexivity]).
@@ -425,18 +426,32 @@ Proof.
     assert (Hc' : Inv sid p (es ++ [ELoop]) c) by (apply Inv_mono; [assumption|assumption|reflexivity]).
     unfold cloop. apply Inv_runlate.
     destruct (c_ph c) eqn:P; try exact Hc'. apply Inv_report; assumption.
+  - apply Inv_mono; [exact Hc| |reflexivity]. rewrite F. destruct (first_exit p es); reflexivity.
+  - apply Inv_mono; [exact Hc| |reflexivity]. rewrite F. destruct (first_exit p es); reflexivity.
 Qed.
 
-Lemma Inv_fold sid p r : forall es c, Inv sid p es c -> Inv sid p (es ++ r) (fold_left (cstep sid) r c).
+Lemma trk_cons sid w e r c : trk sid w (e :: r) c = trk sid (step w e) r (cstep sid (w_init w) c e).
+Proof. reflexivity. Qed.
+
+Lemma pfold_fst' sid r : forall w c, fst (fold_left (pstep sid) r (w, c)) = fold_left step r w.
+Proof. induction r as [|e r IH]; intros w c; simpl; [reflexivity|]. apply IH. Qed.
+
+Lemma trk_app sid a b : forall w c, trk sid w (a ++ b) c = trk sid (fold_left step a w) b (trk sid w a c).
 Proof.
-  induction r as [|e r IH]; intros es c H; simpl.
+  induction a as [|e a IH]; intros w c; [reflexivity|].
+  rewrite <- app_comm_cons, !trk_cons. simpl fold_left. apply IH.
+Qed.
+
+Lemma Inv_fold sid p r : forall es w c, Inv sid p es c -> Inv sid p (es ++ r) (trk sid w r c).
+Proof.
+  induction r as [|e r IH]; intros es w c H.
   - rewrite app_nil_r. exact H.
   - replace (es ++ e :: r) with ((es ++ [e]) ++ r) by (rewrite <- app_assoc; reflexivity).
-    apply IH. apply Inv_step. exact H.
+    rewrite trk_cons. apply IH. apply Inv_step. exact H.
 Qed.
 
-Lemma Inv_track sid p r : Inv sid p r (fold_left (cstep sid) r (cinit p)).
-Proof. exact (Inv_fold sid p r [] (cinit p) (Inv_init sid p)). Qed.
+Lemma Inv_track sid p w r : Inv sid p r (trk sid w r (cinit p)).
+Proof. exact (Inv_fold sid p r [] w (cinit p) (Inv_init sid p)). Qed.
 
 (* ---------- progress ---------- *)
 Definition exited (st : Z) (c : cstate) : Prop :=
@@ -479,18 +494,17 @@ Proof.
 Qed.
 
 (* what one event can do to the phase *)
-Lemma cstep_phase sid c e :
+Lemma cstep_phase sid h c e :
   match c_ph c with
-  | PhRun => c_ph (cstep sid c e) = PhRun \/ exists st, c_ph (cstep sid c e) = PhZombie st
-  | PhZombie st => c_ph (cstep sid c e) = PhZombie st \/ c_ph (cstep sid c e) = PhQueued st
-  | PhQueued st => c_ph (cstep sid c e) = PhQueued st \/ c_ph (cstep sid c e) = PhReported st
-  | PhReported st => c_ph (cstep sid c e) = PhReported st
+  | PhRun => c_ph (cstep sid h c e) = PhRun \/ exists st, c_ph (cstep sid h c e) = PhZombie st
+  | PhZombie st => c_ph (cstep sid h c e) = PhZombie st \/ c_ph (cstep sid h c e) = PhQueued st
+  | PhQueued st => c_ph (cstep sid h c e) = PhQueued st \/ c_ph (cstep sid h c e) = PhReported st
+  | PhReported st => c_ph (cstep sid h c e) = PhReported st
   end.
 Proof.
-  destruct e as [q|q st0| |s0 l|s0 l re|]; cbn [cstep].
-  - destruct (c_ph c); auto.
+  destruct e as [q|q st0| |s0 l|s0 l re| | |]; cbn [cstep]; try (destruct (c_ph c); auto; fail).
   - destruct (q =? s_pid (c_sub c)); destruct (c_ph c) eqn:P; simpl; rewrite ?P; eauto.
-  - destruct (c_inw c); [|destruct (c_ph c); auto]. pose proof (ctry_phase c) as H. destruct (c_ph c); auto.
+  - destruct (h && c_inw c); [|destruct (c_ph c); auto]. pose proof (ctry_phase c) as H. destruct (c_ph c); auto.
   - destruct (Nat.eqb s0 sid); [|destruct (c_ph c); auto].
     pose proof (creg_phase prep_plain (cb_plain l) c) as H. destruct (c_ph c); auto.
   - destruct (Nat.eqb s0 sid); [|destruct (c_ph c); auto].
@@ -498,19 +512,19 @@ Proof.
   - pose proof (cloop_phase sid c) as H. destruct (c_ph c); auto.
 Qed.
 
-Lemma exited_step sid st c e : exited st c -> exited st (cstep sid c e).
+Lemma exited_step sid st h c e : exited st c -> exited st (cstep sid h c e).
 Proof.
-  unfold exited. pose proof (cstep_phase sid c e) as H.
+  unfold exited. pose proof (cstep_phase sid h c e) as H.
   intros [E|[E|E]]; rewrite E in H; tauto.
 Qed.
-Lemma reaped_step sid st c e : reaped st c -> reaped st (cstep sid c e).
+Lemma reaped_step sid st h c e : reaped st c -> reaped st (cstep sid h c e).
 Proof.
-  unfold reaped. pose proof (cstep_phase sid c e) as H.
+  unfold reaped. pose proof (cstep_phase sid h c e) as H.
   intros [E|E]; rewrite E in H; tauto.
 Qed.
-Lemma reported_step sid st c e : reported st c -> reported st (cstep sid c e).
+Lemma reported_step sid st h c e : reported st c -> reported st (cstep sid h c e).
 Proof.
-  unfold reported. pose proof (cstep_phase sid c e) as H.
+  unfold reported. pose proof (cstep_phase sid h c e) as H.
   intros E; rewrite E in H; tauto.
 Qed.
 
@@ -521,13 +535,13 @@ Proof.
   unfold ctry. simpl. destruct (c_ph c); simpl; eauto.
 Qed.
 
-Lemma registered_step sid c e : registered c -> registered (cstep sid c e).
+Lemma registered_step sid h c e : registered c -> registered (cstep sid h c e).
 Proof.
   unfold registered. intros [H|[st H]].
-  - destruct e as [q|q st0| |s0 l|s0 l re|]; cbn [cstep].
-    + left; exact H.
+  - destruct e as [q|q st0| |s0 l|s0 l re| | |]; cbn [cstep]; try (left; exact H).
     + destruct (q =? s_pid (c_sub c)); [|left; exact H]. destruct (c_ph c); simpl; auto.
-    + rewrite H. unfold ctry. rewrite H. destruct (c_ph c) eqn:P; simpl; rewrite ?P; eauto.
+    + destruct h; [|left; exact H]. rewrite H. cbn [andb]. unfold ctry. rewrite H.
+      destruct (c_ph c) eqn:P; simpl; rewrite ?P; eauto.
     + destruct (Nat.eqb s0 sid); [|left; exact H].
       destruct (creg_inw prep_plain (cb_plain l) c H) as [K|[st K]]; eauto.
     + destruct (Nat.eqb s0 sid); [|left; exact H].
@@ -538,32 +552,24 @@ Proof.
       * left. destruct (crun_late_ph sid c) as [_ [_ A]]. congruence.
       * right. exists st. right. exact K.
       * left. destruct (crun_late_ph sid c) as [_ [_ A]]. congruence.
-  - right. exists st. pose proof (cstep_phase sid c e) as K.
+  - right. exists st. pose proof (cstep_phase sid h c e) as K.
     destruct H as [H|H]; rewrite H in K; tauto.
 Qed.
 
 Lemma fold_stable (P : cstate -> Prop) sid :
-  (forall c e, P c -> P (cstep sid c e)) -> forall r c, P c -> P (fold_left (cstep sid) r c).
-Proof. intros S r. induction r as [|e r IH]; intros c H; simpl; [exact H|]. apply IH, S, H. Qed.
-
-Lemma cstep_pid sid p es c e : Inv sid p es c -> s_pid (c_sub (cstep sid c e)) = s_pid (c_sub c).
-Proof. intros H. rewrite (i_pid _ _ _ _ (Inv_step sid p es c e H)). symmetry. exact (i_pid _ _ _ _ H). Qed.
-
-(* the child's first exit is what the automaton remembers (read off the invariant) *)
-Lemma fold_exited sid p r st : first_exit p r = Some st -> exited st (fold_left (cstep sid) r (cinit p)).
+  (forall h c e, P c -> P (cstep sid h c e)) -> forall r w c, P c -> P (trk sid w r c).
 Proof.
-  intros F. pose proof (Inv_fold_pre := I).
-  assert (H : Inv sid p r (fold_left (cstep sid) r (cinit p))).
-  { assert (G : forall r es c, Inv sid p es c -> Inv sid p (es ++ r) (fold_left (cstep sid) r c)).
-    { induction r0 as [|e r0 IH]; intros es c H; simpl; [rewrite app_nil_r; exact H|].
-      replace (es ++ e :: r0) with ((es ++ [e]) ++ r0) by (rewrite <- app_assoc; reflexivity).
-      apply IH. apply Inv_step. exact H. }
-    exact (G r [] (cinit p) (Inv_init sid p)). }
-  pose proof (i_st _ _ _ _ H) as S. rewrite F in S. unfold exited.
-  destruct (c_ph (fold_left (cstep sid) r (cinit p))); simpl in S; try discriminate; injection S as ->; auto.
+  intros S r. induction r as [|e r IH]; intros w c H; [exact H|]. rewrite trk_cons. apply IH, S, H.
 Qed.
 
-Lemma reg_registers sid c e : cwf c -> is_reg_of sid e -> registered (cstep sid c e).
+(* the child's first exit is what the automaton remembers (read off the invariant) *)
+Lemma fold_exited sid p w r st : first_exit p r = Some st -> exited st (trk sid w r (cinit p)).
+Proof.
+  intros F. pose proof (i_st _ _ _ _ (Inv_track sid p w r)) as S. rewrite F in S. unfold exited.
+  destruct (c_ph (trk sid w r (cinit p))); simpl in S; try discriminate; injection S as ->; auto.
+Qed.
+
+Lemma reg_registers sid h c e : cwf c -> is_reg_of sid e -> registered (cstep sid h c e).
 Proof.
   unfold is_reg_of, registered. intros W.
   assert (K : forall prep cbof, c_inw (creg prep cbof c) = true \/
@@ -571,19 +577,19 @@ Proof.
   { intros prep cbof. unfold creg. destruct (s_rc (c_sub c)) eqn:Rc.
     - right. unfold cwf in W. simpl. destruct (c_ph c); try (destruct W; congruence). eauto.
     - unfold ctry. simpl. destruct (c_ph c); simpl; eauto. }
-  destruct e as [q|q st0| |s0 l|s0 l re|]; simpl; try tauto.
+  destruct e as [q|q st0| |s0 l|s0 l re| | |]; simpl; try tauto.
   - destruct (Nat.eqb s0 sid); [|tauto]. intros _. apply K.
   - destruct (Nat.eqb s0 sid); [|tauto]. intros _. apply K.
 Qed.
 
-Lemma fold_registered sid r c : cwf c -> (exists e, In e r /\ is_reg_of sid e) -> registered (fold_left (cstep sid) r c).
+Lemma fold_registered sid w r c : cwf c -> (exists e, In e r /\ is_reg_of sid e) -> registered (trk sid w r c).
 Proof.
-  intros W [e [H K]]. apply in_split in H as [r1 [r2 ->]]. rewrite fold_left_app. simpl.
-  apply fold_stable; [apply registered_step|]. apply reg_registers; [apply fold_cwf; exact W|exact K].
+  intros W [e [H K]]. apply in_split in H as [r1 [r2 ->]]. rewrite trk_app, trk_cons.
+  apply fold_stable; [intros; apply registered_step; assumption|]. apply reg_registers; [apply fold_cwf; exact W|exact K].
 Qed.
 
-(* a registration finds the zombie at once; a SIGCHLD finds it if the object is registered *)
-Lemma reg_reaps sid st c e : cwf c -> exited st c -> is_reg_of sid e -> reaped st (cstep sid c e).
+(* a registration finds the zombie at once; a SIGCHLD finds it if the object is registered and the handler installed *)
+Lemma reg_reaps sid st h c e : cwf c -> exited st c -> is_reg_of sid e -> reaped st (cstep sid h c e).
 Proof.
   unfold exited, reaped, is_reg_of. intros W X.
   assert (K : forall prep cbof, c_ph (creg prep cbof c) = PhQueued st \/ c_ph (creg prep cbof c) = PhReported st).
@@ -591,12 +597,12 @@ Proof.
     - unfold creg. unfold cwf in W. rewrite X in W. destruct W as [W _]. rewrite W.
       unfold ctry. simpl. rewrite X. left; reflexivity.
     - pose proof (creg_phase prep cbof c) as H. destruct X as [X|X]; rewrite X in H; auto. }
-  destruct e as [q|q st0| |s0 l|s0 l re|]; simpl; try tauto.
+  destruct e as [q|q st0| |s0 l|s0 l re| | |]; simpl; try tauto.
   - destruct (Nat.eqb s0 sid); [|tauto]. intros _. apply K.
   - destruct (Nat.eqb s0 sid); [|tauto]. intros _. apply K.
 Qed.
 
-Lemma sigchld_reaps sid st c : exited st c -> registered c -> reaped st (cstep sid c ESigchld).
+Lemma sigchld_reaps sid st c : exited st c -> registered c -> reaped st (cstep sid true c ESigchld).
 Proof.
   unfold exited, reaped, registered. destruct c as [s ph inw calls lt]. simpl.
   intros X Y. destruct inw; unfold ctry; simpl.
@@ -605,54 +611,51 @@ Proof.
     destruct X as [ -> | [ -> | -> ] ]; auto. destruct Y; discriminate.
 Qed.
 
-Lemma loop_reports sid st c : reaped st c -> reported st (cstep sid c ELoop).
+Lemma loop_reports sid st h c : reaped st c -> reported st (cstep sid h c ELoop).
 Proof.
   unfold reaped, reported. cbn [cstep]. pose proof (cloop_phase sid c) as H.
   intros [E|E]; rewrite E in H; exact H.
 Qed.
 
-Lemma fold_with (P Q : cstate -> Prop) sid (e0 : event) r c :
-  (forall c e, Q c -> Q (cstep sid c e)) ->
-  (forall c, P c -> Q (cstep sid c e0)) ->
-  (forall c e, P c -> P (cstep sid c e)) ->
-  In e0 r -> P c -> Q (fold_left (cstep sid) r c).
+Lemma fold_with (P Q : cstate -> Prop) sid (e0 : event) r w c :
+  (forall h c e, Q c -> Q (cstep sid h c e)) ->
+  (forall h c, P c -> Q (cstep sid h c e0)) ->
+  (forall h c e, P c -> P (cstep sid h c e)) ->
+  In e0 r -> P c -> Q (trk sid w r c).
 Proof.
-  intros SQ PQ SP H Pc. apply in_split in H as [r1 [r2 ->]]. rewrite fold_left_app. simpl.
+  intros SQ PQ SP H Pc. apply in_split in H as [r1 [r2 ->]]. rewrite trk_app, trk_cons.
   apply fold_stable; [exact SQ|]. apply PQ. apply fold_stable; [exact SP|exact Pc].
 Qed.
 
-(* (A) registration and exit in either order, then a SIGCHLD, then a loop turn *)
-Theorem spec_reported_A sid p r1 r2 r3 r4 st :
-  first_exit p r1 = Some st -> (exists e, In e r1 /\ is_reg_of sid e) -> In ESigchld r2 -> In ELoop r3 ->
-  reported st (fold_left (cstep sid) (r1 ++ r2 ++ r3 ++ r4) (cinit p)).
+(* (A) registration and exit in either order (r1), then a SIGCHLD delivered while the handler is installed, then a loop turn *)
+Theorem spec_reported_A sid p w r1 r3 r4 st :
+  first_exit p r1 = Some st -> (exists e, In e r1 /\ is_reg_of sid e) ->
+  w_init (fold_left step r1 w) = true -> In ELoop r3 ->
+  reported st (trk sid w (r1 ++ ESigchld :: r3 ++ r4) (cinit p)).
 Proof.
-  intros F Rg S L. rewrite !fold_left_app.
-  apply fold_stable; [apply reported_step|].
+  intros F Rg Hd L. rewrite trk_app, trk_cons, Hd, trk_app.
+  apply fold_stable; [intros; apply reported_step; assumption|].
   apply (fold_with (reaped st) (reported st) sid ELoop); try exact L.
-  - apply reported_step.
-  - apply loop_reports.
-  - apply reaped_step.
-  - apply (fold_with (fun c => exited st c /\ registered c) (reaped st) sid ESigchld); try exact S.
-    + apply reaped_step.
-    + intros c [A B]. apply sigchld_reaps; assumption.
-    + intros c e [A B]. split; [apply exited_step|apply registered_step]; assumption.
-    + split; [apply fold_exited; exact F|apply fold_registered; [apply cinit_cwf|exact Rg]].
+  - intros; apply reported_step; assumption.
+  - intros; apply loop_reports; assumption.
+  - intros; apply reaped_step; assumption.
+  - apply sigchld_reaps; [apply fold_exited; exact F|apply fold_registered; [apply cinit_cwf|exact Rg]].
 Qed.
 
-(* (B) the child is already dead when the object is registered: no SIGCHLD is needed *)
-Theorem spec_reported_B sid p r1 r2 r3 r4 st :
+(* (B) the child is already dead when the object is registered: no SIGCHLD (and no handler) is needed *)
+Theorem spec_reported_B sid p w r1 r2 r3 r4 st :
   first_exit p r1 = Some st -> (exists e, In e r2 /\ is_reg_of sid e) -> In ELoop r3 ->
-  reported st (fold_left (cstep sid) (r1 ++ r2 ++ r3 ++ r4) (cinit p)).
+  reported st (trk sid w (r1 ++ r2 ++ r3 ++ r4) (cinit p)).
 Proof.
-  intros F [e0 [Rg K]] L. rewrite !fold_left_app.
-  apply fold_stable; [apply reported_step|].
+  intros F [e0 [Rg K]] L. rewrite !trk_app.
+  apply fold_stable; [intros; apply reported_step; assumption|].
   apply (fold_with (reaped st) (reported st) sid ELoop); try exact L.
-  - apply reported_step.
-  - apply loop_reports.
-  - apply reaped_step.
+  - intros; apply reported_step; assumption.
+  - intros; apply loop_reports; assumption.
+  - intros; apply reaped_step; assumption.
   - apply (fold_with (fun c => cwf c /\ exited st c) (reaped st) sid e0); try exact Rg.
-    + apply reaped_step.
-    + intros c [W A]. apply reg_reaps; assumption.
-    + intros c e [W A]. split; [apply cstep_cwf|apply exited_step]; assumption.
+    + intros; apply reaped_step; assumption.
+    + intros h c [W A]. apply reg_reaps; assumption.
+    + intros h c e [W A]. split; [apply cstep_cwf|apply exited_step]; assumption.
     + split; [apply fold_cwf, cinit_cwf|apply fold_exited; exact F].
 Qed.
